@@ -149,6 +149,7 @@ struct UnitCfg {
     drop_body: bool, // emit as external_body (assumed contract) — body replaced by unimplemented!()
     str_slices: Vec<String>, // R15: identifiers whose `&X[a..b]` is a string slice
     try_conv: bool,          // R17: desugar `e?` into match + `.into()`
+    try_poll: bool,          // R17b: the fn returns Poll<Result<..>>
 }
 
 struct Cfg {
@@ -262,6 +263,7 @@ struct BodyV<'a, 'b> {
     used_text_closures: HashSet<String>,
     closure_ctx: Vec<String>,
     closure_rewritten: bool,
+    closure_depth: usize,
     call_counts: HashMap<String, usize>,
     calls_seen: Vec<String>,
     claimed_hints: HashSet<usize>,
@@ -659,7 +661,14 @@ impl<'a, 'b, 'ast> Visit<'ast> for BodyV<'a, 'b> {
         // R17: `E?`  ->  (match E { Ok(__v) => __v, Err(__e) => return Err(__e.into()) })
         // (the desugaring of `?` on a Result; Verus keeps the converted error value only
         // when the conversion is an explicit call)
-        if self.unit.as_ref().map(|u| u.try_conv).unwrap_or(false) {
+        if self.unit.as_ref().map(|u| u.try_poll).unwrap_or(false) && self.closure_depth == 0 {
+            // R17b: in a fn returning Poll<Result<T, E>>, `E?` on a Result is
+            // `match E { Ok(v) => v, Err(e) => return Poll::Ready(Err(e.into())) }`
+            let inner = range_of(&*e.expr);
+            let (qa, qb) = br(e.question_token.span());
+            self.fc.edit_ord(inner.0, inner.0, "(match ", "R17b.try_poll", -7);
+            self.fc.edit(qa, qb, " { Ok(__v) => __v, Err(__e) => return Poll::Ready(Err(__e.into())) })", "R17b.try_poll");
+        } else if self.unit.as_ref().map(|u| u.try_conv).unwrap_or(false) {
             let inner = range_of(&*e.expr);
             let (qa, qb) = br(e.question_token.span());
             self.fc.edit_ord(inner.0, inner.0, "(match ", "R17.try", -7);
@@ -686,6 +695,18 @@ impl<'a, 'b, 'ast> Visit<'ast> for BodyV<'a, 'b> {
     }
 
     fn visit_expr_call(&mut self, e: &'ast ExprCall) {
+        // R21: `Pin::new(E)` -> `E`
+        if let Expr::Path(ep) = &*e.func {
+            let segs: Vec<String> = ep.path.segments.iter().map(|s| s.ident.to_string()).collect();
+            if segs.len() >= 2 && segs[segs.len() - 2] == "Pin" && segs[segs.len() - 1] == "new" && e.args.len() == 1 {
+                let whole = range_of(e);
+                let a = range_of(&e.args[0]);
+                self.fc.edit(whole.0, a.0, "(", "R21.pin_new");
+                self.fc.edit(a.1, whole.1, ")", "R21.pin_new");
+                self.visit_expr(&e.args[0]);
+                return;
+            }
+        }
         if let Expr::Path(ep) = &*e.func {
             let (k2, k1) = path_key2(&ep.path);
             let mode = k2
@@ -824,11 +845,13 @@ impl<'a, 'b, 'ast> Visit<'ast> for BodyV<'a, 'b> {
         }
         // closures nested in this closure's body are not arguments of the enclosing call
         let saved_ctx = std::mem::take(&mut self.closure_ctx);
+        self.closure_depth += 1;
         // visit params' types and the body
         for p in c.inputs.iter() {
             self.visit_pat(p);
         }
         self.visit_expr(&c.body);
+        self.closure_depth -= 1;
         self.closure_ctx = saved_ctx;
     }
 
@@ -1203,6 +1226,16 @@ fn process_fn(
             }
         }
     }
+    // R21: `self: Pin<&mut Self>` -> `&mut self` (Pin is a transparent wrapper for Unpin types)
+    if let Some(FnArg::Receiver(rc)) = sig.inputs.first() {
+        if rc.colon_token.is_some() {
+            let ty = rc.ty.to_token_stream().to_string().replace(' ', "");
+            if ty == "Pin<&mutSelf>" {
+                let r = range_of(rc);
+                fc.edit(r.0, r.1, "&mut self", "R21.pin_receiver");
+            }
+        }
+    }
     // R6: mut self
     let mut mut_self = false;
     if let Some(FnArg::Receiver(rc)) = sig.inputs.first() {
@@ -1255,6 +1288,14 @@ fn process_fn(
     let _ = in_trait_decl;
 
     // signature types + body
+    let mut u2 = u.clone();
+    if let ReturnType::Type(_, t) = &sig.output {
+        let ts = t.to_token_stream().to_string().replace(' ', "");
+        if ts.starts_with("Poll<") {
+            u2.try_poll = true;
+        }
+    }
+    let u = &u2;
     let mut bv = BodyV {
         fc,
         world: u.world.clone(),
@@ -1270,6 +1311,7 @@ fn process_fn(
                         used_text_closures: HashSet::new(),
                         closure_ctx: Vec::new(),
                         closure_rewritten: false,
+                        closure_depth: 0,
                         call_counts: HashMap::new(),
                         calls_seen: Vec::new(),
                         claimed_hints: HashSet::new(),
@@ -1756,6 +1798,7 @@ fn main() {
                         used_text_closures: HashSet::new(),
                         closure_ctx: Vec::new(),
                         closure_rewritten: false,
+                        closure_depth: 0,
                         call_counts: HashMap::new(),
                         calls_seen: Vec::new(),
                         claimed_hints: HashSet::new(),
@@ -1931,6 +1974,7 @@ fn main() {
                         used_text_closures: HashSet::new(),
                         closure_ctx: Vec::new(),
                         closure_rewritten: false,
+                        closure_depth: 0,
                         call_counts: HashMap::new(),
                         calls_seen: Vec::new(),
                         claimed_hints: HashSet::new(),
